@@ -258,7 +258,8 @@ def run(ctx):
         ctx.ob("LANES", "color-pack", order == [3, 2, 1, 4] and le, f"color(r,g,b,a) packs parameters {order} little-endian; must be [b, g, r, a]", cb.file, cb.line, sample=True)
     else:
         ctx.fail_closed("LANES", "bcn::color::color not found")
-    dc = [c for c in prog.closures_of("tex::Texture::decode")]
+    # the per-pixel projection lives in a closure of decode or in a local fn handed to the adaptor
+    dc = [c for c in prog.deep_bodies("tex::Texture::decode") if c.name != "tex::Texture::decode"]
     proj = None
     for c in dc:
         for p in Explorer(c).explore():
